@@ -140,6 +140,7 @@ def run(rep: Report, repo: Repo):
 
     rep.rule('C19.ctor', 'TechLib.__init__: splits cells, strips, separates name from body at the first blank, numbers inputs and outputs with separate counters in io_nodes order, expands {a,b} alternatives by product')
     evaluated = ctor_evaluated(rep, repo, tmod, ctor)
+    lookups_evaluated(rep, repo, tmod)
     if facts is None:
         if not evaluated:
             raise ModelError('TechLib.__init__: neither the recognised idiom nor within the evaluator subset (library reader cannot mirror the constructor)')
@@ -306,6 +307,38 @@ def ctor_evaluated(rep, repo, tmod, f):
                     f'names missing {bad[1]}, names not in the library text {bad[2]}, pin tables differing (name, built, documented) {bad[3]}: every name of the text expands to one '
                     f'definition and every declared pin is listed exactly once, inputs and outputs numbered separately in declaration order', node=f)
     return True
+
+
+def lookups_evaluated(rep, repo, tmod):
+    """pin_index / pin_is_output evaluated (Engine M) on a stand-in table: position and direction of a known pin, AssertionError for an
+    unknown cell or pin."""
+    from kvstatic import minieval
+    rep.rule('C19.lookup', 'pin_index returns the recorded position and pin_is_output the recorded direction of (kind, pin); unknown cells and pins are rejected (AssertionError)')
+    table = {'K1': ('impl', {'A': (3, False), 'B': (0, False), 'Z': (1, True), 'ZN': (0, True)}), 'K2': ('impl', {'A': (0, False)})}
+    for q, col in (('TechLib.pin_index', 0), ('TechLib.pin_is_output', 1)):
+        f = tmod.func(q)
+        bad = None
+        try:
+            for kind in ('K1', 'K2', 'K3'):
+                for pin in ('A', 'B', 'Z', 'ZN', 'Q'):
+                    me = minieval.NS(cells=table)
+                    try:
+                        got = minieval.call_function(f, [me, kind, pin])
+                    except AssertionError:
+                        got = 'AssertionError'
+                    except (KeyError, IndexError, TypeError) as e:
+                        got = type(e).__name__
+                    want = table[kind][1][pin][col] if kind in table and pin in table[kind][1] else 'AssertionError'
+                    if (got != want or type(got) is not type(want)) and bad is None:
+                        bad = (kind, pin, got, want)
+        except ModelError as e:
+            rep.note(f'C19.lookup: {q} outside the evaluator subset ({e})')
+            continue
+        ok = bad is None
+        rep.ob('C19.lookup', f'{q} on the stand-in table', ok, evals=15)
+        if not ok:
+            rep.violate('C19.lookup', tmod, f, q, f'{q}: for cell {bad[0]!r}, pin {bad[1]!r} of the table {table} it gives {bad[2]!r} instead of {bad[3]!r}: '
+                        f'netlist pins would be connected to the wrong positions / directions', node=f)
 
 
 def check_ctor(rep, tmod, f, facts):
